@@ -63,16 +63,26 @@ pub fn triangle_order_outline(t: Triangle, q: Point) {
     check!(seen2 == seen && seen3 == seen, "C19.order");
 }
 
-/// a one-pixel outline consists of the three edge lines (stroked triangles run through the join code)
-pub fn triangle_outline(t: Triangle, q: Point) {
+/// a one-pixel outline consists of the three edge lines: it equals the union of the three edges, each
+/// rasterised as a `Line` in ONE of its two directions (Bresenham ties differ by direction; the stroke code
+/// walks the triangle clockwise, the fill code uses vertices sorted by (y, x)). Concrete triangle, concrete
+/// evaluation on 8x8 bit masks (coordinates 0..7).
+pub fn triangle_outline(t: Triangle, _q: Point) {
     note!("triangle", t);
     let [a, b, c] = t.vertices;
-    let mut outline = 0u32;
-    for Pixel(p, _) in t.into_styled(PrimitiveStyle::with_stroke(Gray8::new(1), 1)).pixels() { if p == q { outline += 1; } }
-    let mut on_edge = false;
-    for p in Line::new(a, b).points().chain(Line::new(b, c).points()).chain(Line::new(c, a).points()) { if p == q { on_edge = true; } }
-    note!("outline_at_q", outline); note!("on_edge_line", on_edge);
-    check!((outline > 0) == on_edge, "C19.outline");
+    let bit = |p: Point| -> u64 { if p.x >= 0 && p.x < 8 && p.y >= 0 && p.y < 8 { 1u64 << (p.y * 8 + p.x) } else { 0 } };
+    let mut outline = 0u64;
+    for Pixel(p, _) in t.into_styled(PrimitiveStyle::with_stroke(Gray8::new(1), 1)).pixels() { outline |= bit(p); }
+    let line_mask = |u: Point, v: Point| -> u64 { let mut m = 0u64; for p in Line::new(u, v).points() { m |= bit(p); } m };
+    let e = [[line_mask(a, b), line_mask(b, a)], [line_mask(b, c), line_mask(c, b)], [line_mask(c, a), line_mask(a, c)]];
+    let mut some = false;
+    let mut m = 0usize;
+    while m < 8 {
+        if e[0][m & 1] | e[1][(m >> 1) & 1] | e[2][(m >> 2) & 1] == outline { some = true; }
+        m += 1;
+    }
+    note!("outline_mask", outline);
+    check!(some, "C19.outline");
 }
 
 macro_rules! c19_g_tri {
@@ -116,7 +126,8 @@ macro_rules! c19_g_shared {
                 let (mut s1, mut s2, mut edge) = (false, false, false);
                 for p in t1.points() { if p == q { s1 = true; } }
                 for p in t2.points() { if p == q { s2 = true; } }
-                for p in Line::new(a, b).points() { if p == q { edge = true; } }
+                let (e0, e1) = if (a.y, a.x) <= (b.y, b.x) { (a, b) } else { (b, a) }; // edges are rasterised from (y, x)-sorted vertices
+                for p in Line::new(e0, e1).points() { if p == q { edge = true; } }
                 // the quad (union of both mathematical triangles): every interior point is covered
                 if strictly_inside(&t1, q) || strictly_inside(&t2, q) || (cross(a, b, q) == 0 && in_rect(&Rectangle::with_corners(a, b), q)) {
                     check!(s1 || s2, "C19.no_gap");
